@@ -125,11 +125,24 @@ fn run_grid(ctx: &Ctx) -> CheckResult {
                     }
                 }
             }
-            ctx.ev.borrow_mut().nontrivial_enumerated += 65536;
+            // the gates next to the Q-ratio byte (a header read as a wider integer couples them):
+            // all 256 length codes x all 256 Q bytes, and all 256 checksum bytes x all 256 Q bytes
+            for q in 0..=255u8 {
+                let mut bq = bg.clone();
+                bq[v.ck + 1] = q;
+                for x in 0..=255u8 {
+                    for (c, l) in [(bg[0] % 49, x), (x, bg[v.ck] % 170)] {
+                        if let Err(m) = case_grid(va, &bq, c, l, &st) {
+                            return Err(ctx.violation("grid", m, json!({"variant": v.name, "bytes": hex(&bq), "c": c, "l": l})));
+                        }
+                    }
+                }
+            }
+            ctx.ev.borrow_mut().nontrivial_enumerated += 65536 * 3;
             st.sample(|| json!({"check": "grid", "variant": v.name, "background": hex(&bg), "grid": "256 checksum bytes x 256 length codes"}));
         }
     }
-    ctx.exhaustive("all 256 checksum bytes x all 256 length codes, as text (with/without prefix), slice and array");
+    ctx.exhaustive("all 256 checksum bytes x all 256 length codes, all 256 length codes x all 256 Q bytes, all 256 checksum bytes x all 256 Q bytes, as text (with/without prefix), slice, array and (serde builds) compact byte entries");
     Ok(())
 }
 
